@@ -458,7 +458,8 @@ def judgeOps (ops impls : List String) : List String :=
            -- handler flag of every observed event must agree with SubscribeOn
            let wrongH := (evs.getD []).filter (fun e => e.2.2.2 != (B.handlerFlag (getPub B w' e.1)))
            cs ++ wrongH.map (fun e => s!"wrong goroutine for {showEv e}"))
-      else if out = impl then cs else cs ++ [s!"op '{tok}' printed '{impl}', the property's semantics gives '{out}'"]
+      else if out = impl || out.startsWith "n=" then cs   -- the count is not part of the property's statement
+      else cs ++ [s!"op '{tok}' printed '{impl}', the property's semantics gives '{out}'"]
     ({ w' with obs := [] }, cs)) (initWorld B, [])
   let vs := (w.pubs.map (fun s => B.viols s)).flatten
   -- publishes of background goroutines still open at the end of the line are not judged
